@@ -327,6 +327,27 @@ def published(ctx):
                   'discharge limit is %s' % show(dis, an.names)[:400], ctx.where(b))
         ctx.check(okc, 'C09-2.published', k + '.pwr_charge_max', 'charge limit = interp1d(soc, [hi_ramp_start, max_soc], [rating, 0], no extrapolation)',
                   'charge limit is %s' % show(chg, an.names)[:400], ctx.where(b))
+        # the two derating ramps are siblings: when the ramp starts are not configured, both default to the same distance from
+        # their end of the window (a ramp that is much steeper at one end lets one accepted step run through that end)
+        widths = {}
+        for bb, path, val, span in an.stores_log:
+            if len(path) == 2 and path[0] == ('obj', 1) and path[1] in (('f', 'soc_lo_ramp_start'), ('f', 'soc_hi_ramp_start')) and val[0] == 'some':
+                e = val[1]
+                end = ('pre', (('obj', 1), ('f', 'min_soc' if 'lo' in path[1][1] else 'max_soc')))
+                w_ = None
+                if e[0] in ('add', 'sub') and len(e) == 3 and end in e[1:]:
+                    oth = e[2] if e[1] == end else e[1]
+                    if oth[0] == 'num':
+                        w_ = abs(oth[1]) if e[0] == 'sub' or oth[1] >= 0 else abs(oth[1])
+                        inward = (e[0] == 'add' and oth[1] > 0) == ('lo' in path[1][1]) if e[0] == 'add' else ('hi' in path[1][1] and e[1] == end and oth[1] > 0)
+                        if not inward:
+                            w_ = None
+                widths[path[1][1]] = (w_, show(e, an.names)[:80], span)
+        if widths:
+            lo, hi = widths.get('soc_lo_ramp_start'), widths.get('soc_hi_ramp_start')
+            okw = lo is not None and hi is not None and lo[0] is not None and lo[0] == hi[0]
+            ctx.check(okw, 'C09-2.published', k + '.default ramps', 'unconfigured ramp starts default to the same distance inside the window at both ends (%s)' % (lo[0] if lo else None),
+                      'default ramp starts: low end %s, high end %s' % (lo[1] if lo else None, hi[1] if hi else None), ctx.where(b, (lo or hi)[2]))
         try:
             aux = T(an.arg('pwr_aux'))
             prove(ctx, 'C09-2.published', k + '.pwr_prop_out_max', an, 'eq', sv.post('pwr_prop_out_max'), sv.post('pwr_disch_max') - aux, assume=A)
